@@ -11,6 +11,8 @@
 -/
 import Proofs.C08Lex
 import Proofs.FittableTable
+import Proofs.C08Objects
+import Proofs.C08File
 
 namespace Taurex.C08
 open Taurex.Priors Taurex.FittableTable
@@ -252,6 +254,139 @@ theorem default_from_declaration_classes (decls : List (Decl ℝ)) (hist : List 
         | linear => rfl
         | log => exact absurd hmo hlin
     rw [this, (default_from_bounds b0 b1).1]
+
+/-! ### priors written as text are NEW objects (`create_prior`; one per `X:prior` line and per read of a file) -/
+
+section objects
+open Taurex.PriorObjects
+
+/-- **Text builds a fresh object, exactly as a direct constructor call does.**  Whatever objects exist already (`h`) and
+    whatever texts were parsed before, `create_prior` of a text the factory accepts (`createPrior … = .ok p`) adds ONE new
+    object whose value is the one direct construction gives (`p`) and leaves every existing object as it is — also when the
+    same text was parsed before.  From then on the new object is changed by `set_bounds` calls on ITSELF only: after any
+    history `ops` it is `p` re-bounded by its own calls, and simply `p` when there are none. -/
+theorem text_prior_is_fresh_object (half quarter : ℝ) (h : Heap ℝ) (c : Call ℝ) (p : Prior ℝ)
+    (hc : createPrior half quarter c = .ok p) (ops : List (PriorObjects.Op ℝ)) :
+    PriorObjects.step half quarter h (.create c) = h ++ [p] ∧
+    (∀ j, j < h.length → (PriorObjects.step half quarter h (.create c))[j]? = h[j]?) ∧
+    (PriorObjects.run half quarter (h ++ [p]) ops)[h.length]? = some (reboundAll p (ownCalls h.length ops)) ∧
+    (ownCalls h.length ops = [] → (PriorObjects.run half quarter (h ++ [p]) ops)[h.length]? = some p) := by
+  have hstep : PriorObjects.step half quarter h (.create c) = h ++ [p] := by simp [PriorObjects.step, hc]
+  have hrun := getElem?_run half quarter ops (h ++ [p]) h.length (by simp)
+  simp only [List.getElem?_concat_length, Option.map_some] at hrun
+  refine ⟨hstep, ?_, hrun, ?_⟩
+  · intro j hj
+    rw [hstep, List.getElem?_append_left hj]
+  · intro hown
+    rw [hrun, hown]
+    rfl
+
+/-- **An object is changed by its own `set_bounds` calls only.**  After any history (texts parsed, bounds of any objects
+    replaced) object `j` is what it was, re-bounded by the calls that name `j`, in order; a re-bounded uniform / log-uniform
+    object is the prior of the new bounds (as freshly built), the Gaussian classes are not touched. -/
+theorem object_changed_by_own_set_bounds_only (half quarter : ℝ) (h : Heap ℝ) (ops : List (PriorObjects.Op ℝ)) (j : ℕ)
+    (hj : j < h.length) :
+    (PriorObjects.run half quarter h ops)[j]? = (h[j]?).map (fun p => reboundAll p (ownCalls j ops)) ∧
+    (∀ a b b0 b1 : ℝ, rebound (mkUniform a b) b0 b1 = mkUniform b0 b1 ∧
+      rebound (mkLogUniform a b) b0 b1 = mkLogUniform b0 b1 ∧ rebound (mkGaussian a b) b0 b1 = mkGaussian a b) :=
+  ⟨getElem?_run half quarter ops h j hj, fun _ _ _ _ => ⟨rfl, rfl, rfl⟩⟩
+
+/-- the factory accepts the documented text `Uniform(bounds=(0.1, 10))` (hypothesis `hc`), and a history that re-bounds
+    ANOTHER object and parses the same text again has no call on the object created first (hypothesis `ownCalls … = []`) -/
+example : createPrior (1/2 : ℝ) (1/4) ⟨"Uniform", [("bounds", .tuple [1/10, 10])]⟩ = .ok (mkUniform (1/10) 10) := by
+  have hk : resolveKlass "Uniform" = some "Uniform" := by decide +kernel
+  simp [createPrior, hk, lookupArg, pairOf]
+
+example (h : Heap ℝ) : ownCalls h.length
+    [PriorObjects.Op.setBounds (h.length + 1) (6 : ℝ) 5, .create ⟨"Uniform", [("bounds", .tuple [1/10, 10])]⟩] = [] := by
+  simp [ownCalls]
+
+/-- two priors from the SAME text, the first one re-bounded, the text parsed a third time: the second and the third object
+    are the prior the text describes -/
+example : PriorObjects.run (1/2 : ℝ) (1/4) []
+    [.create ⟨"Uniform", [("bounds", .tuple [1/10, 10])]⟩, .create ⟨"Uniform", [("bounds", .tuple [1/10, 10])]⟩,
+     .setBounds 0 6 5, .create ⟨"Uniform", [("bounds", .tuple [1/10, 10])]⟩] =
+    [mkUniform 6 5, mkUniform (1/10) 10, mkUniform (1/10) 10] := by
+  have hk : resolveKlass "Uniform" = some "Uniform" := by decide +kernel
+  simp [PriorObjects.run, PriorObjects.step, modifyAt, rebound, createPrior, hk, lookupArg, pairOf, mkUniform]
+
+end objects
+
+/-! ### the input-file route: `[Fitting]` section, `setup_optimizer`, `enable_fit`, `compile_params` -/
+
+section file
+open Taurex.OptimizerSM Taurex.FittingSection Taurex.C07
+
+/-- **What an input file says about a parameter's prior holds whenever that parameter is fitted.**  On a fresh optimizer
+    (names unique across the tables, derived names disjoint) let `setup_optimizer` run through on the sections, then switch
+    on any parameters `en` with `enable_fit`, then compile.  The result is exactly `implied` of the settings the FILE
+    describes with the fit flags of `en` set (`fileSettings`) — and in it a parameter the file mentions (record `r`) gets, once
+    it is fitted — by the file's own `fit = True` or by a later `enable_fit` —,
+      * the prior written for it as text (`X:prior = "…"`, built by `mkPrior` = `create_prior`) if there is one,
+      * otherwise the default prior of the mode and bounds the file describes for it (`X:mode`, `X:bounds` — else the
+        `X:factor` multiples of its value, else its declared ones),
+    whether or not the file itself switches the fit on: options of a parameter with `fit = False` (or no `fit` line) are
+    not dropped. -/
+theorem file_prior_after_enable (mkPrior : OptVal ℝ → Option (Prior ℝ)) (model obs : List (Param String ℝ))
+    (dm dob : List (Derived String)) (fitting derive : List (String × OptVal ℝ))
+    (hwf : WF (initSt model obs dm dob)) (hdd : DisjD (initSt model obs dm dob : St String ℝ))
+    (hok : (setupOptimizer mkPrior (initSt model obs dm dob) fitting derive).2.1 = .ok) (en : List String) :
+    ∃ grp dl, parseFitting mkPrior fitting [] = .ok grp ∧ splitAll derive = some dl ∧
+      (view (step (run (setupOptimizer mkPrior (initSt model obs dm dob) fitting derive).1 (enableOps en)) .compile).1,
+       (step (run (setupOptimizer mkPrior (initSt model obs dm dob) fitting derive).1 (enableOps en)) .compile).2) =
+        implied (fileSettings (initSt model obs dm dob) grp (deriveRecs dl []) en) ∧
+      ∀ (o : Owner) (p : Param String ℝ) (r : Rec ℝ), getRec grp p.name = some r →
+        (∀ pr, r.prior = some pr →
+          impliedRow (describePriors grp) o (switchedOn (describeParam r p)) = some (entryOf o (describeParam r p), pr)) ∧
+        (r.prior = none →
+          impliedRow (describePriors grp) o (switchedOn (describeParam r p)) =
+            (defaultPrior (describeParam r p).mode (describeParam r p).b0 (describeParam r p).b1).map
+              (fun pr => (entryOf o (describeParam r p), pr))) := by
+  obtain ⟨grp, dl, hp, hsd, hnd, hc⟩ :=
+    setup_enable_compile mkPrior (initSt model obs dm dob) hwf hdd rfl fitting derive hok en
+  exact ⟨grp, dl, hp, hsd, hc, fun o p r hr => impliedRow_described grp hnd o p r hr⟩
+
+/-- non-vacuity: `T` is configured with a text prior but NOT switched on, `H2O` gets linear mode and bounds without a fit
+    line; `setup_optimizer` runs through (hypothesis `hok`), and after `enable_fit` of both the file's settings have both
+    fit flags set, the written bounds and mode in place and the text prior recorded for `T` -/
+noncomputable def exFileInit : St String ℝ :=
+  initSt [⟨"T", .linear, false, 100, 2000, 1500⟩, ⟨"H2O", .log, false, 1, 100, 10⟩] [] [] []
+
+noncomputable def exFileFitting : List (String × OptVal ℝ) :=
+  [("T:fit", .bool false), ("T:prior", .str "Gaussian(mean=1500, std=100)"), ("H2O:mode", .str "linear"),
+   ("H2O:bounds", .nums [2, 50])]
+
+noncomputable def exMkPrior : OptVal ℝ → Option (Prior ℝ)
+  | .str _ => some (.gaussian 1500 100)
+  | _ => none
+
+example : WF exFileInit ∧ DisjD exFileInit := by
+  constructor
+  · simp [WF, exFileInit, initSt, names]
+  · intro n hn; simp [exFileInit, initSt, dnames] at hn
+
+example : (setupOptimizer exMkPrior exFileInit exFileFitting []).2.1 = .ok ∧
+    (fileSettings exFileInit [("T", { fit := .bool false, prior := some (.gaussian 1500 100) }),
+        ("H2O", { mode := some (.str "linear"), bounds := some (.nums [2, 50]) })] [] ["T", "H2O"]).model =
+      [⟨"T", .linear, true, 100, 2000, 1500⟩, ⟨"H2O", .linear, true, 2, 50, 10⟩] := by
+  have k1 : splitKey "T:fit" = some ("T", "fit") := by decide +kernel
+  have k2 : splitKey "T:prior" = some ("T", "prior") := by decide +kernel
+  have k3 : splitKey "H2O:mode" = some ("H2O", "mode") := by decide +kernel
+  have k4 : splitKey "H2O:bounds" = some ("H2O", "bounds") := by decide +kernel
+  have c1 : classify "fit" = .fit := by decide +kernel
+  have c2 : classify "prior" = .prior := by decide +kernel
+  have c3 : classify "mode" = .mode := by decide +kernel
+  have c4 : classify "bounds" = .bounds := by decide +kernel
+  have m1 : parseMode "linear" = some FitMode.linear := by decide +kernel
+  have m2 : "linear".toLower = "linear" := by decide +kernel
+  constructor
+  · simp [setupOptimizer, exFileFitting, exFileInit, exMkPrior, initSt, parseFitting, k1, k2, k3, k4, setOpt, c1, c2, c3, c4,
+      getRec, updRec, fittingOps, recOps, pairOpt, modeOpt, truthy, PairOpt.isBad, ModeOpt.isBad, fitOps, factorOps,
+      boundsOps, modeOps, priorOps, runStop, step, withParam, ownerOf, hasName, table, setTable, modifyParam, m1, m2, splitAll,
+      deriveRecs, deriveOps]
+  · simp [fileSettings, enabled, switchedOn, describeTable, describeParam, exFileInit, initSt, getRec, pairOpt, modeOpt, truthy, m1, m2]
+
+end file
 
 /-! ### prior text -/
 
